@@ -307,6 +307,35 @@ def discharge(ctx, s, scope=None):
                         if other.startswith('checked_shl(1,') and M in other:
                             return 'index below %s = 2^%s (dominating guard), so its logarithm is at most %s - 1' % (F, M, M)
     if kind == 'split' and len(ops) == 2:
+        # the first part of an earlier split has exactly the length it was split at
+        x0 = ops[0]
+        while x0.tag == 'mut':
+            x0 = x0[1]
+        cands = [x0]
+        if x0.tag == 'lv':
+            cands = [y for y in ctx.eng.lv_defs(x0)] or [x0]
+        n_here = _const_int(_strip(ops[1]))
+        okc = bool(cands) and n_here is not None
+        for y in cands:
+            while y.tag == 'mut':
+                y = y[1]
+            if y.tag == 'adt' and y[1].split('::')[-1] in ('None', 'Err'):
+                continue            # the split is on the success path of `?`
+            if y.tag == 'adt' and y[1].split('::')[-1] in ('Some', 'Ok') and y[2]:
+                y = y[2][0][1]
+                while y.tag == 'mut':
+                    y = y[1]
+            n0 = None
+            if y.tag == 'field' and y[1] == '0' and y[2].tag == 'adapt' and y[2][1] in ('split_at', 'split_at_checked', 'split_at_mut') and len(y[2].args) >= 3:
+                nt = y[2][3]
+                n0 = _const_int(_strip(nt))
+                if n0 is None and nt.tag == 'binop' and nt[1] == 'Mul':
+                    a_, b_ = _const_int(_strip(nt[2])), _const_int(_strip(nt[3]))
+                    n0 = a_ * b_ if a_ is not None and b_ is not None else None
+            if n0 is None or n_here is None or n_here > n0:
+                okc = False
+        if okc:
+            return 'the slice is the first %s elements of an earlier split and is split at %d' % ('n', n_here)
         # split_at(X, n) panics when n > len(X): discharged by a dominating test n <= len(X)
         n_c, x_len = canon(ops[1]), 'len(%s)' % canon(ops[0])
         for a in known():
